@@ -1,3 +1,787 @@
 package main
 
-func checkCmd(args []string) int { return 0 }
+import (
+	"bytes"
+	"crypto/sha256"
+	"encoding/hex"
+	"encoding/json"
+	"flag"
+	"fmt"
+	"math/big"
+	"os"
+	"os/exec"
+	"path/filepath"
+	"runtime"
+	"sort"
+	"strconv"
+	"strings"
+	"sync"
+	"time"
+
+	"symgo/sym"
+)
+
+// ---- configuration ----
+
+type TierCfg struct {
+	Params      map[string]string `json:"params"`
+	Unwind      int               `json:"unwind"`
+	MaxAlloc    int               `json:"maxalloc"`
+	MaxPaths    int               `json:"maxpaths"`
+	TimeoutMs   int               `json:"timeout_ms"`
+	JobTimeoutS int               `json:"job_timeout_s"`
+	Solver      string            `json:"solver"`
+	Merge       []string          `json:"merge"`
+}
+
+type HarnessCfg struct {
+	Name         string   `json:"name"`
+	Obligation   string   `json:"obligation"`
+	Quick        *TierCfg `json:"quick"`
+	Thorough     *TierCfg `json:"thorough"`
+	RequireReach []string `json:"require_reach"`
+	AllowPanic   bool     `json:"allow_panic"`
+}
+
+type CheckCfg struct {
+	Property    string       `json:"property"`
+	Packages    []string     `json:"packages"`
+	Assumptions []string     `json:"assumptions"`
+	Stubs       []string     `json:"stubs"`
+	Outside     []string     `json:"outside_claim"`
+	Harnesses   []HarnessCfg `json:"harnesses"`
+}
+
+type KnownFinding struct {
+	Property string `json:"property"`
+	Harness  string `json:"harness"`
+	Kind     string `json:"kind"`
+	Label    string `json:"label"`
+	SiteFn   string `json:"site_fn"`
+	What     string `json:"what"`
+	Status   string `json:"status"` // known | fixed
+	Commit   string `json:"commit,omitempty"`
+}
+
+func parseRange(s string) []int {
+	var out []int
+	for _, part := range strings.Split(s, ",") {
+		part = strings.TrimSpace(part)
+		if i := strings.Index(part, ".."); i >= 0 {
+			lo, _ := strconv.Atoi(part[:i])
+			hi, _ := strconv.Atoi(part[i+2:])
+			for v := lo; v <= hi; v++ {
+				out = append(out, v)
+			}
+			continue
+		}
+		v, err := strconv.Atoi(part)
+		if err == nil {
+			out = append(out, v)
+		}
+	}
+	return out
+}
+
+func product(params map[string]string) []map[string]int {
+	keys := make([]string, 0, len(params))
+	for k := range params {
+		keys = append(keys, k)
+	}
+	sort.Strings(keys)
+	res := []map[string]int{{}}
+	for _, k := range keys {
+		vals := parseRange(params[k])
+		var nr []map[string]int
+		for _, m := range res {
+			for _, v := range vals {
+				c := map[string]int{}
+				for kk, vv := range m {
+					c[kk] = vv
+				}
+				c[k] = v
+				nr = append(nr, c)
+			}
+		}
+		res = nr
+	}
+	return res
+}
+
+// ---- jobs ----
+
+type job struct {
+	h      *HarnessCfg
+	tier   *TierCfg
+	params map[string]int
+	res    *jobResult
+}
+
+type jobResult struct {
+	Stats     sym.Stats
+	Findings  []sym.Finding
+	Witnesses map[string]*sym.Witness
+	Queries   [3]int
+	SolverS   float64
+	SolverErr []string
+	WallS     float64
+	Err       string
+}
+
+func runJob(prog *sym.Program, j *job) {
+	t0 := time.Now()
+	lim := sym.DefaultLimits()
+	t := j.tier
+	if t.Unwind > 0 {
+		lim.Unwind = t.Unwind
+	}
+	if t.MaxAlloc > 0 {
+		lim.MaxAlloc = t.MaxAlloc
+	}
+	if t.MaxPaths > 0 {
+		lim.MaxPaths = t.MaxPaths
+	}
+	if t.TimeoutMs > 0 {
+		lim.TimeoutMs = t.TimeoutMs
+	}
+	jt := 600
+	if t.JobTimeoutS > 0 {
+		jt = t.JobTimeoutS
+	}
+	lim.Deadline = time.Now().Add(time.Duration(jt) * time.Second)
+	solver := t.Solver
+	if solver == "" {
+		solver = "z3"
+	}
+	res := &jobResult{}
+	j.res = res
+	defer func() {
+		if r := recover(); r != nil {
+			res.Err = fmt.Sprint(r)
+		}
+		res.WallS = time.Since(t0).Seconds()
+	}()
+	ex, err := sym.NewExec(prog, j.h.Name, j.params, lim, solver)
+	if err != nil {
+		res.Err = err.Error()
+		return
+	}
+	defer ex.Close()
+	ex.AllowPanic = j.h.AllowPanic
+	for _, m := range t.Merge {
+		ex.AddMerge(m)
+	}
+	ex.RunHarness()
+	res.Stats = ex.Stats
+	res.Findings = ex.Findings
+	res.Witnesses = ex.Witnesses
+	res.Queries, res.SolverS, res.SolverErr = ex.SolverStats()
+}
+
+// ---- native replay ----
+
+type replayCase struct {
+	ID      string            `json:"id"`
+	Harness string            `json:"harness"` // function name only
+	Stream  map[string]string `json:"stream"`
+	// bookkeeping (not read by verifrt)
+	FullHarness string         `json:"full_harness"`
+	Params      map[string]int `json:"params"`
+	Expect      string         `json:"expect"`
+	Property    string         `json:"property"`
+	Kind        string         `json:"kind"`
+	Label       string         `json:"label"`
+	Site        string         `json:"site"`
+}
+
+type replayOutcome struct {
+	ID      string   `json:"id"`
+	Outcome string   `json:"outcome"`
+	Trace   []string `json:"trace"`
+}
+
+func streamToStrings(st map[string]interface{}, params map[string]int) map[string]string {
+	out := map[string]string{}
+	for k, v := range st {
+		out[k] = fmt.Sprint(v)
+	}
+	for k, v := range params {
+		out["param:"+k] = strconv.Itoa(v)
+	}
+	return out
+}
+
+func splitHarness(full string) (pkgRel, fn string) {
+	i := strings.LastIndex(full, ".")
+	return full[:i], full[i+1:]
+}
+
+// nativeRun executes cases of one package natively through go test -overlay.
+func nativeRun(repo, verif, scratch, pkgRel string, harnessFns []string, cases []replayCase) (map[string]replayOutcome, string, error) {
+	os.MkdirAll(scratch, 0755)
+	tag := strings.ReplaceAll(pkgRel, "/", "_")
+	pkgName, err := packageName(repo, pkgRel)
+	if err != nil {
+		return nil, "", err
+	}
+	var tb bytes.Buffer
+	fmt.Fprintf(&tb, "//go:build verif\n\npackage %s\n\nimport (\n\t\"testing\"\n\n\t\"github.com/codenotary/immudb/embedded/verifrt\"\n)\n\n", pkgName)
+	fmt.Fprintf(&tb, "func TestVerifReplay(t *testing.T) {\n\tverifrt.RunReplay(t, map[string]func(){\n")
+	for _, f := range harnessFns {
+		fmt.Fprintf(&tb, "\t\t%q: %s,\n", f, f)
+	}
+	fmt.Fprintf(&tb, "\t})\n}\n")
+	testFile := filepath.Join(scratch, "replay_"+tag+"_test.go")
+	if err := os.WriteFile(testFile, tb.Bytes(), 0644); err != nil {
+		return nil, "", err
+	}
+	repl := map[string]string{
+		filepath.Join(repo, "embedded/verifrt/verifrt.go"):     filepath.Join(verif, "engine/verifrt/verifrt.go"),
+		filepath.Join(repo, pkgRel, "zz_verif_replay_test.go"): testFile,
+	}
+	hroot := filepath.Join(verif, "harness")
+	filepath.Walk(hroot, func(p string, info os.FileInfo, err error) error {
+		if err == nil && !info.IsDir() && strings.HasSuffix(p, ".go") {
+			rel, _ := filepath.Rel(hroot, p)
+			repl[filepath.Join(repo, rel)] = p
+		}
+		return nil
+	})
+	ovb, _ := json.Marshal(map[string]interface{}{"Replace": repl})
+	ovFile := filepath.Join(scratch, "overlay_"+tag+".json")
+	os.WriteFile(ovFile, ovb, 0644)
+	inFile := filepath.Join(scratch, "cases_"+tag+".json")
+	outFile := filepath.Join(scratch, "outcomes_"+tag+".json")
+	cb, _ := json.Marshal(cases)
+	os.WriteFile(inFile, cb, 0644)
+	os.Remove(outFile)
+	cmd := exec.Command("go", "test", "-tags", "verif", "-vet=off", "-count=1", "-overlay", ovFile, "-run", "^TestVerifReplay$", "-timeout", "20m", "./"+pkgRel)
+	cmd.Dir = repo
+	env := []string{}
+	for _, e := range os.Environ() {
+		if strings.HasPrefix(e, "GOTOOLCHAIN=") || strings.HasPrefix(e, "GOFLAGS=") || strings.HasPrefix(e, "PATH=") {
+			continue
+		}
+		env = append(env, e)
+	}
+	path := os.Getenv("VERIF_ORIG_PATH")
+	if path == "" {
+		path = "/usr/local/sbin:/usr/local/bin:/usr/sbin:/usr/bin:/sbin:/bin"
+	}
+	env = append(env, "PATH="+path, "GOFLAGS=-mod=mod", "GOPROXY=off", "VERIF_REPLAY_FILE="+inFile, "VERIF_REPLAY_OUT="+outFile)
+	cmd.Env = env
+	out, runErr := cmd.CombinedOutput()
+	res := map[string]replayOutcome{}
+	data, err := os.ReadFile(outFile)
+	if err != nil {
+		return res, string(out), fmt.Errorf("native run produced no outcomes (%v): %.2000s", runErr, string(out))
+	}
+	var outs []replayOutcome
+	if err := json.Unmarshal(data, &outs); err != nil {
+		return res, string(out), err
+	}
+	for _, o := range outs {
+		res[o.ID] = o
+	}
+	return res, string(out), nil
+}
+
+func packageName(repo, pkgRel string) (string, error) {
+	ents, err := os.ReadDir(filepath.Join(repo, pkgRel))
+	if err != nil {
+		return "", err
+	}
+	for _, e := range ents {
+		if strings.HasSuffix(e.Name(), ".go") && !strings.HasSuffix(e.Name(), "_test.go") {
+			b, err := os.ReadFile(filepath.Join(repo, pkgRel, e.Name()))
+			if err != nil {
+				continue
+			}
+			for _, l := range strings.Split(string(b), "\n") {
+				l = strings.TrimSpace(l)
+				if strings.HasPrefix(l, "package ") {
+					return strings.Fields(l)[1], nil
+				}
+			}
+		}
+	}
+	return "", fmt.Errorf("no package clause in %s", pkgRel)
+}
+
+// ---- the check command ----
+
+func checkCmd(args []string) int {
+	fs := flag.NewFlagSet("check", flag.ExitOnError)
+	repo := fs.String("repo", "/repo", "")
+	verif := fs.String("verif", "/verif", "")
+	tier := fs.String("tier", "quick", "")
+	only := fs.String("only", "", "run only harnesses whose name contains this")
+	replay := fs.String("replay", "", "replay a recorded case natively")
+	strict := fs.Bool("strict", false, "non-zero exit on any incompleteness")
+	workers := fs.Int("j", runtime.NumCPU(), "")
+	noNative := fs.Bool("no-native", false, "skip native replay/validation (development)")
+	fs.Parse(args)
+	if *replay != "" {
+		return replayCmd(*repo, *verif, *replay)
+	}
+	if fs.NArg() < 1 {
+		fmt.Println("usage: symgo check [flags] <property>")
+		return 2
+	}
+	if t := os.Getenv("VERIF_TIER"); t != "" && *tier == "" {
+		*tier = t
+	}
+	prop := fs.Arg(0)
+	seed := 0
+	if s := os.Getenv("VERIF_SEED"); s != "" {
+		seed, _ = strconv.Atoi(s)
+	}
+	t0 := time.Now()
+	cfgData, err := os.ReadFile(filepath.Join(*verif, "checks", prop+".json"))
+	if err != nil {
+		fmt.Println("cannot read check config:", err)
+		return 2
+	}
+	var cfg CheckCfg
+	if err := json.Unmarshal(cfgData, &cfg); err != nil {
+		fmt.Println("bad check config:", err)
+		return 2
+	}
+	var known []KnownFinding
+	if b, err := os.ReadFile(filepath.Join(*verif, "known_findings.json")); err == nil {
+		if err := json.Unmarshal(b, &known); err != nil {
+			fmt.Println("bad known_findings.json:", err)
+			return 2
+		}
+	}
+	ev := newEvidence(prop, *tier, seed, &cfg)
+	evPath := filepath.Join(*verif, "evidence", prop+".json")
+	os.MkdirAll(filepath.Dir(evPath), 0755)
+
+	ov, err := sym.Overlay(*repo, *verif)
+	if err != nil {
+		fmt.Println("overlay:", err)
+		return 2
+	}
+	prog, err := sym.Load(*repo, ov, cfg.Packages...)
+	if err != nil {
+		// the edited tree (or a harness against it) does not load: inconclusive, never a violation
+		fmt.Printf("INCONCLUSIVE property=%s harnesses do not load against the current tree: %v\n", prop, err)
+		ev.Incomplete = true
+		ev.Notes = append(ev.Notes, "load failure: "+err.Error())
+		ev.write(evPath, time.Since(t0).Seconds())
+		if *strict {
+			return 3
+		}
+		return 0
+	}
+	loadS := time.Since(t0).Seconds()
+
+	// enumerate jobs
+	var jobs []*job
+	for i := range cfg.Harnesses {
+		h := &cfg.Harnesses[i]
+		if *only != "" && !strings.Contains(h.Name, *only) {
+			continue
+		}
+		tc := h.Quick
+		if *tier == "thorough" && h.Thorough != nil {
+			tc = h.Thorough
+		}
+		if tc == nil {
+			continue
+		}
+		if prog.Harness(h.Name) == nil {
+			fmt.Printf("INCONCLUSIVE harness=%s not found in the loaded program\n", h.Name)
+			ev.Incomplete = true
+			continue
+		}
+		for _, pm := range product(tc.Params) {
+			jobs = append(jobs, &job{h: h, tier: tc, params: pm})
+		}
+	}
+	// run
+	var wg sync.WaitGroup
+	ch := make(chan *job)
+	for w := 0; w < *workers; w++ {
+		wg.Add(1)
+		go func() {
+			defer wg.Done()
+			for j := range ch {
+				runJob(prog, j)
+			}
+		}()
+	}
+	for _, j := range jobs {
+		ch <- j
+	}
+	close(ch)
+	wg.Wait()
+	exploreS := time.Since(t0).Seconds() - loadS
+
+	// aggregate
+	type hAgg struct {
+		jobs, paths, states, branches int
+		held, failed, unknown, checked int
+		reach                          map[string]int
+		incomplete                     []string
+		funcs                          map[string]bool
+		wit                            map[string]*replayCase
+	}
+	aggs := map[string]*hAgg{}
+	var cases []replayCase
+	caseN := 0
+	for _, j := range jobs {
+		a := aggs[j.h.Name]
+		if a == nil {
+			a = &hAgg{reach: map[string]int{}, funcs: map[string]bool{}, wit: map[string]*replayCase{}}
+			aggs[j.h.Name] = a
+		}
+		r := j.res
+		a.jobs++
+		if r.Err != "" {
+			a.incomplete = append(a.incomplete, fmt.Sprintf("job %v: engine error: %s", j.params, r.Err))
+			continue
+		}
+		st := r.Stats
+		a.paths += st.Paths
+		a.states += st.States
+		a.branches += st.Branches
+		a.held += st.AssertHeld
+		a.failed += st.AssertFailed
+		a.unknown += st.AssertUnknown
+		a.checked += st.AssertChecked
+		ev.Queries["sat"] += r.Queries[1]
+		ev.Queries["unsat"] += r.Queries[0]
+		ev.Queries["unknown"] += r.Queries[2]
+		ev.SolverS += r.SolverS
+		ev.Merged += st.Merged
+		for f := range st.Funcs {
+			a.funcs[f] = true
+		}
+		for k, v := range st.ReachCount {
+			a.reach[k] += v
+		}
+		for k, v := range st.Unsupported {
+			a.incomplete = append(a.incomplete, fmt.Sprintf("job %v: %s (x%d)", j.params, k, v))
+		}
+		if st.Budget {
+			a.incomplete = append(a.incomplete, fmt.Sprintf("job %v: path/time budget exhausted", j.params))
+		}
+		if st.AssertUnknown > 0 {
+			a.incomplete = append(a.incomplete, fmt.Sprintf("job %v: %d assertion queries unknown", j.params, st.AssertUnknown))
+		}
+		for _, e := range r.SolverErr {
+			a.incomplete = append(a.incomplete, fmt.Sprintf("job %v: solver error: %.200s", j.params, e))
+		}
+		pkgRel, fn := splitHarness(j.h.Name)
+		_ = pkgRel
+		for _, f := range r.Findings {
+			caseN++
+			exp := "assert:" + f.Label
+			if f.Kind == "panic" {
+				exp = "panic:"
+			}
+			cases = append(cases, replayCase{ID: fmt.Sprintf("f%d", caseN), Harness: fn, FullHarness: j.h.Name,
+				Stream: streamToStrings(f.Stream, j.params), Params: j.params, Expect: exp, Property: prop,
+				Kind: f.Kind, Label: f.Label, Site: f.Site})
+		}
+		for lbl, w := range r.Witnesses {
+			if _, ok := a.wit[lbl]; ok {
+				continue
+			}
+			caseN++
+			rc := replayCase{ID: fmt.Sprintf("w%d", caseN), Harness: fn, FullHarness: j.h.Name,
+				Stream: streamToStrings(w.Stream, j.params), Params: j.params, Expect: "reach " + lbl, Property: prop, Kind: "witness", Label: lbl}
+			a.wit[lbl] = &rc
+		}
+	}
+	for _, a := range aggs {
+		for _, rc := range a.wit {
+			cases = append(cases, *rc)
+		}
+	}
+
+	// native replay + translator validation, per package
+	scratch := filepath.Join(*verif, "replay", prop)
+	os.RemoveAll(scratch)
+	os.MkdirAll(scratch, 0755)
+	outcomes := map[string]replayOutcome{}
+	nativeFailed := map[string]string{}
+	if !*noNative && len(cases) > 0 {
+		byPkg := map[string][]replayCase{}
+		for _, c := range cases {
+			p, _ := splitHarness(c.FullHarness)
+			byPkg[p] = append(byPkg[p], c)
+		}
+		for p, cs := range byPkg {
+			fns := prog.HarnessFuncs(p)
+			res, out, err := nativeRun(*repo, *verif, scratch, p, fns, cs)
+			if err != nil {
+				nativeFailed[p] = err.Error()
+				os.WriteFile(filepath.Join(scratch, "native_"+strings.ReplaceAll(p, "/", "_")+".log"), []byte(out), 0644)
+			}
+			for k, v := range res {
+				outcomes[k] = v
+			}
+		}
+	}
+	// concrete-mode re-execution of witnesses (executor vs native traces)
+	validated, mismatches := 0, 0
+	mismatchH := map[string]bool{}
+	if !*noNative {
+		for _, c := range cases {
+			if c.Kind != "witness" {
+				continue
+			}
+			o, ok := outcomes[c.ID]
+			if !ok {
+				continue
+			}
+			conc := concreteTrace(prog, c)
+			nat := o.Trace
+			if o.Outcome == "assume-false" {
+				nat = append(append([]string(nil), nat...), "assume-false")
+			}
+			reached := false
+			for _, t := range nat {
+				if t == c.Expect {
+					reached = true
+				}
+			}
+			same := reached && strings.Join(conc, "|") == strings.Join(nat, "|")
+			if same {
+				validated++
+			} else {
+				mismatches++
+				mismatchH[c.FullHarness] = true
+				fmt.Printf("INCONCLUSIVE harness=%s translator mismatch on witness %q: native=%v (%s) executor=%v\n", c.FullHarness, c.Label, nat, o.Outcome, conc)
+			}
+		}
+	}
+
+	// verdicts
+	exit := 0
+	violations := 0
+	knownHit := map[string]bool{}
+	var confirmedSamples []interface{}
+	for _, c := range cases {
+		if c.Kind == "witness" {
+			continue
+		}
+		o, ok := outcomes[c.ID]
+		confirmed := false
+		if ok {
+			if c.Kind == "panic" {
+				confirmed = strings.HasPrefix(o.Outcome, "panic:")
+			} else {
+				confirmed = o.Outcome == c.Expect
+			}
+		}
+		if *noNative {
+			fmt.Printf("CANDIDATE property=%s harness=%s kind=%s label=%s site=%s params=%v\n", prop, c.FullHarness, c.Kind, c.Label, c.Site, c.Params)
+			continue
+		}
+		if !confirmed {
+			ev.Unconfirmed++
+			oc := "no native outcome"
+			if ok {
+				oc = o.Outcome
+			}
+			fmt.Printf("INCONCLUSIVE harness=%s counterexample for %s %q did not reproduce natively (native outcome: %s)\n", c.FullHarness, c.Kind, c.Label, oc)
+			aggs[c.FullHarness].incomplete = append(aggs[c.FullHarness].incomplete, "unconfirmed counterexample for "+c.Label)
+			continue
+		}
+		// known finding?
+		var kf *KnownFinding
+		for i := range known {
+			k := &known[i]
+			if k.Status == "known" && k.Property == prop && k.Harness == c.FullHarness && k.Kind == c.Kind && k.Label == c.Label && strings.Contains(c.Site, k.SiteFn) {
+				kf = k
+				break
+			}
+		}
+		if kf != nil {
+			key := kf.Harness + "|" + kf.Label + "|" + kf.SiteFn
+			if !knownHit[key] {
+				knownHit[key] = true
+				fmt.Printf("KNOWN-FINDING: property=%s %s\n", prop, kf.What)
+				ev.KnownHit = append(ev.KnownHit, kf.What)
+			}
+			continue
+		}
+		violations++
+		path := filepath.Join(scratch, fmt.Sprintf("%s_%s.json", c.Harness, c.ID))
+		cb, _ := json.MarshalIndent(c, "", " ")
+		os.WriteFile(path, cb, 0644)
+		fmt.Printf("VIOLATION property=%s replay=%s\n", prop, path)
+		fmt.Printf("  harness=%s %s %q at %s params=%v native=%s\n", c.FullHarness, c.Kind, c.Label, c.Site, c.Params, o.Outcome)
+		if len(confirmedSamples) < 5 {
+			confirmedSamples = append(confirmedSamples, map[string]interface{}{"violation": c.Label, "harness": c.FullHarness, "site": c.Site, "stream": c.Stream})
+		}
+		exit = 1
+	}
+
+	// evidence
+	names := make([]string, 0, len(aggs))
+	for n := range aggs {
+		names = append(names, n)
+	}
+	sort.Strings(names)
+	funcs := map[string]bool{}
+	for _, n := range names {
+		a := aggs[n]
+		var hc *HarnessCfg
+		for i := range cfg.Harnesses {
+			if cfg.Harnesses[i].Name == n {
+				hc = &cfg.Harnesses[i]
+			}
+		}
+		tc := hc.Quick
+		if *tier == "thorough" && hc.Thorough != nil {
+			tc = hc.Thorough
+		}
+		// vacuity
+		for _, rl := range hc.RequireReach {
+			if a.reach[rl] == 0 {
+				a.incomplete = append(a.incomplete, "required marker not reachable: "+rl)
+				fmt.Printf("INCONCLUSIVE harness=%s marker %q unreachable (vacuous)\n", n, rl)
+			}
+		}
+		if mismatchH[n] {
+			a.incomplete = append(a.incomplete, "translator mismatch")
+		}
+		p, _ := splitHarness(n)
+		if msg, bad := nativeFailed[p]; bad {
+			a.incomplete = append(a.incomplete, "native run failed: "+msg)
+			fmt.Printf("INCONCLUSIVE harness=%s native replay/validation failed: %.300s\n", n, msg)
+		}
+		ev.States += a.states
+		ev.Transitions += a.branches
+		ev.Paths += a.paths
+		ev.AssertChecked += a.checked
+		ev.AssertHeld += a.held
+		ev.AssertFailed += a.failed
+		for f := range a.funcs {
+			funcs[f] = true
+		}
+		ob := map[string]interface{}{
+			"harness": n, "obligation": hc.Obligation, "jobs": a.jobs, "paths": a.paths,
+			"bounds":            map[string]interface{}{"params": tc.Params, "unwind": orDefault(tc.Unwind, 64), "maxalloc": orDefault(tc.MaxAlloc, 16)},
+			"assertions_held":   a.held, "assertions_failed_candidates": a.failed,
+			"reach":             a.reach,
+			"complete":          len(a.incomplete) == 0,
+		}
+		if len(a.incomplete) > 0 {
+			ev.Incomplete = true
+			if len(a.incomplete) > 12 {
+				a.incomplete = append(a.incomplete[:12], fmt.Sprintf("... and %d more", len(a.incomplete)-12))
+			}
+			ob["incomplete_reasons"] = a.incomplete
+		}
+		wit := map[string]interface{}{}
+		for lbl, rc := range a.wit {
+			wit[lbl] = rc.Stream
+			if len(wit) >= 3 {
+				break
+			}
+		}
+		ob["reach_witnesses"] = wit
+		ev.Samples = append(ev.Samples, ob)
+	}
+	ev.Samples = append(ev.Samples, confirmedSamples...)
+	ev.Validated = validated
+	ev.Mismatches = mismatches
+	ev.Violations = violations
+	ev.Functions = funcHashes(prog, funcs)
+	ev.LoadS, ev.ExploreS = loadS, exploreS
+	if err := ev.write(evPath, time.Since(t0).Seconds()); err != nil {
+		fmt.Println("cannot write evidence:", err)
+		return 2
+	}
+	status := "held on everything explored"
+	if ev.Incomplete {
+		status += " (INCOMPLETE: see evidence)"
+	}
+	if exit == 1 {
+		status = "VIOLATED"
+	}
+	fmt.Printf("%s %s tier=%s: %s; jobs=%d paths=%d asserts held=%d/%d queries=%v solver=%.1fs validated=%d wall=%.1fs\n",
+		prop, "symgo", *tier, status, len(jobs), ev.Paths, ev.AssertHeld, ev.AssertChecked, ev.Queries, ev.SolverS, validated, time.Since(t0).Seconds())
+	if exit == 0 && *strict && (ev.Incomplete || ev.Unconfirmed > 0) {
+		return 3
+	}
+	return exit
+}
+
+func orDefault(v, d int) int {
+	if v > 0 {
+		return v
+	}
+	return d
+}
+
+func concreteTrace(prog *sym.Program, c replayCase) []string {
+	conc := map[string]*big.Int{}
+	for k, v := range c.Stream {
+		if strings.HasPrefix(k, "param:") {
+			continue
+		}
+		if strings.HasPrefix(v, "x:") {
+			if b, err := hex.DecodeString(v[2:]); err == nil {
+				conc[k] = new(big.Int).SetBytes(b)
+			}
+			continue
+		}
+		if bi, ok := new(big.Int).SetString(v, 10); ok {
+			conc[k] = bi
+		}
+	}
+	return sym.ConcreteRun(prog, c.FullHarness, c.Params, conc)
+}
+
+func funcHashes(prog *sym.Program, funcs map[string]bool) []map[string]string {
+	var names []string
+	for f := range funcs {
+		if strings.Contains(f, "codenotary/immudb") && !strings.Contains(f, "verifrt") && !strings.Contains(f, "VerifH_") && !strings.Contains(f, "verif") {
+			names = append(names, f)
+		}
+	}
+	sort.Strings(names)
+	var out []map[string]string
+	for _, n := range names {
+		src := prog.FuncSource(n)
+		h := sha256.Sum256([]byte(src))
+		out = append(out, map[string]string{"func": strings.ReplaceAll(n, "github.com/codenotary/immudb/", ""), "src_sha256": hex.EncodeToString(h[:8])})
+	}
+	return out
+}
+
+func replayCmd(repo, verif, path string) int {
+	b, err := os.ReadFile(path)
+	if err != nil {
+		fmt.Println(err)
+		return 2
+	}
+	var c replayCase
+	if err := json.Unmarshal(b, &c); err != nil {
+		fmt.Println(err)
+		return 2
+	}
+	p, fn := splitHarness(c.FullHarness)
+	scratch := filepath.Join(verif, "replay", "_single")
+	os.RemoveAll(scratch)
+	res, out, err := nativeRun(repo, verif, scratch, p, []string{fn}, []replayCase{c})
+	if err != nil {
+		fmt.Println("native run failed:", err)
+		fmt.Println(out)
+		return 2
+	}
+	o := res[c.ID]
+	fmt.Printf("harness=%s outcome=%s expected=%s\ntrace=%v\n", c.FullHarness, o.Outcome, c.Expect, o.Trace)
+	if (c.Kind == "panic" && strings.HasPrefix(o.Outcome, "panic:")) || o.Outcome == c.Expect {
+		fmt.Printf("VIOLATION property=%s replay=%s\n", c.Property, path)
+		return 1
+	}
+	return 0
+}
